@@ -41,22 +41,70 @@ def judge(h):
     return out
 
 
+def const_cases(tier):
+    """Every copyable value of the bounded value grammar, built from lists and from one-shot iterators."""
+    from mc.drivers import opterms as O
+    from mc.drivers import terms as T
+
+    for spec in O.value_specs("thorough" if tier == "quick" else "deep"):
+        try:
+            if T.ref_bound(O.ref_value_type(spec)) != T.C:
+                continue
+        except Exception:  # noqa: BLE001
+            continue
+        for one_shot in (False, True):
+            yield [spec, one_shot]
+
+
+def const_judge(case):
+    """`load(value)` in an otherwise empty Dfg, value passed to the output: the document must be valid
+    (R2 types the Const through R4, the LoadConstant through R3)."""
+    from hugr.build.dfg import Dfg
+    from mc.drivers import opterms as O
+
+    spec, one_shot = case
+    d = Dfg()
+    try:
+        n = d.load(O.build_value(spec, one_shot))
+        d.set_outputs(n)
+    except Exception:  # noqa: BLE001
+        return []  # a refused value is not an invalid HUGR (C14 / C13 judge refusals)
+    return [(f"{rule}:const-{spec[0]}{':one-shot' if one_shot else ''}", f"{msg} | value={spec} one_shot={one_shot}") for rule, msg in judge(d.hugr)]
+
+
+def _const_chunk(cases):
+    return [(c, const_judge(c)) for c in cases]
+
+
+def run_consts(tier, col):
+    from mc.engine.core import pmap
+
+    cases = list(const_cases(tier))
+    for res in pmap(_const_chunk, [cases[i::64] for i in range(64)]):
+        for case, fails in res:
+            for sig, msg in fails:
+                col.add(sig, msg, {"const": case})
+    return len(cases)
+
+
 def run(tier: str, seed: int) -> Result:
     col = Collector()
     r = e2.explore(SCENARIOS, oracle, PLAN[tier])
     for sig, msg, case in r.fails:
         col.add(sig, msg, case)
     n_ladder = ladder.run_ladder(tier, judge, col)
+    n_const = run_consts(tier, col)
     cov = {
         "states": r.states,
         "transitions": r.transitions,
         "traces_validated_against_impl": r.transitions,
-        "evaluations": r.complete_programs + n_ladder,
+        "evaluations": r.complete_programs + n_ladder + n_const,
         "distinct_nontrivial": r.nontrivial,
         "rule": "state = builder-call prefix (replayed on fresh builders); every prefix of every scenario up to the free-call bound "
         "is extended by the default completion to a complete well-formed program and validated by R2; non-trivial = program "
         "uses a non-local wire, an order edge, a multi-output op, a constant, a nested container, control flow or a call; plus the size "
-        "ladders of mc/drivers/ladder.py (every family x every size x host)",
+        "ladders of mc/drivers/ladder.py (every family x every size x host) and `load(v)` for every copyable value v of the bounded value "
+        "grammar, built from lists and from one-shot iterators",
         "samples": r.samples or [{"scenario": "D1", "program": []}],
         "exhaustive": True,
         "plan": PLAN[tier],
@@ -67,6 +115,7 @@ def run(tier: str, seed: int) -> Result:
         "builder_raised_samples": r.raised_samples,
         "feature_counts": r.features,
         "ladder_cases": n_ladder,
+        "constant_cases": n_const,
         "ladder": {"families": sorted(ladder.FAMILIES), "sizes": ladder.SIZES[tier], "caps": ladder.CAPS},
     }
     return Result(cov, col.violations, ["R2 validator: mc/ref/validate.py (transcription of hugr-core validate.rs / ops/validate.rs)"])
@@ -75,6 +124,8 @@ def run(tier: str, seed: int) -> Result:
 def replay(case) -> list[Violation]:
     if "ladder" in case:
         return [Violation(s, m, case) for s, m in ladder.replay_ladder(case, judge)]
+    if "const" in case:
+        return [Violation(s, m, case) for s, m in const_judge(case["const"])]
     sc = SCENARIOS[case["scenario"]]
     ctx = bpm.run(sc, case["program"])
     return [Violation(s, m, case) for s, m in oracle(sc, ctx, case["program"])]
